@@ -1,6 +1,7 @@
 //! Independent reference reader for text-archive images (DESIGN §4.6) and the escape model (§4.7).
+use super::archive::RefArchive;
 use super::image;
-use super::strings::sjis_decode;
+use super::strings::{sjis_decode, sjis_encode};
 
 pub struct TextImage {
     pub title: Option<String>,
@@ -118,4 +119,39 @@ pub fn escape(stored: &str) -> String {
         }
     }
     out
+}
+
+/// Reference writer for a text-archive image that did not come out of the library: the (Shift-JIS)
+/// title for the UTF-16 format, then every message 4-byte aligned and terminated, each carrying the
+/// given labels at its address (exactly one in a conforming file; none or several for the
+/// unusual-but-parseable files some tools leave behind).
+pub fn write_text_image(be: bool, unicode: bool, title: &str, entries: &[(Vec<String>, String)]) -> Vec<u8> {
+    let mut a = RefArchive::new(be);
+    let pad4 = |v: &mut Vec<u8>| {
+        while v.len() % 4 != 0 {
+            v.push(0);
+        }
+    };
+    if unicode {
+        a.data.extend(sjis_encode(title).expect("title in the Shift-JIS domain"));
+        a.data.push(0);
+        pad4(&mut a.data);
+    }
+    for (labels, msg) in entries {
+        let at = a.data.len();
+        if unicode {
+            for u in msg.encode_utf16() {
+                a.data.extend_from_slice(&u.to_le_bytes());
+            }
+            a.data.extend_from_slice(&[0, 0]);
+        } else {
+            a.data.extend(sjis_encode(msg).expect("message in the Shift-JIS domain"));
+            a.data.push(0);
+        }
+        pad4(&mut a.data);
+        if !labels.is_empty() {
+            a.labels.insert(at, labels.clone());
+        }
+    }
+    image::write_canonical(&a, None)
 }
